@@ -212,6 +212,7 @@ var stringType = reflect.TypeOf("")
 
 var newMap = Func(func(a Arguments) reflect.Value {
 	if a.NumOfArguments()%2 > 0 {
+		a.Panicf("map(): incomplete key-value pair (even number of arguments required)") // an error value, so that Execute returns it
 		panic("map(): incomplete key-value pair (even number of arguments required)")
 	}
 
